@@ -8,6 +8,7 @@ import (
 	"encoding/json"
 	"errors"
 	"fmt"
+	"github.com/hack-pad/hackpadfs/keyvalue"
 	"io"
 	"io/fs"
 	"os"
@@ -18,6 +19,7 @@ import (
 	"testing"
 	"time"
 	"unicode/utf8"
+	"verifharness/internal/kvstore"
 
 	"github.com/hack-pad/hackpadfs"
 	"github.com/hack-pad/hackpadfs/cache"
@@ -54,9 +56,11 @@ type subject struct {
 	w        *world.World // os-backed subjects
 	readOnly bool
 	close    func()
+	// storeCalls (kvoffline): how many calls the backing store has received so far
+	storeCalls func() int
 }
 
-var kinds = []string{"mem", "kvplain", "mount2", "submem", "submountpt", "cache", "tar", "tarbroken", "tarcanceled", "osfs", "sublenient"}
+var kinds = []string{"mem", "kvplain", "kvoffline", "mount2", "submem", "submountpt", "cache", "tar", "tarbroken", "tarcanceled", "osfs", "sublenient"}
 
 func must(err error) {
 	if err != nil {
@@ -72,6 +76,18 @@ func build(kind string, setup []ops.Op) *subject {
 			_ = ops.ApplyFS(s.FS, op)
 		}
 		return &subject{fs: s.FS, parts: s.Parts, close: s.Close}
+	case "kvoffline":
+		// keyvalue.FS over a store that has gone offline (every call fails): an invalid name is still refused as invalid,
+		// and before the store is asked anything
+		st := kvstore.New()
+		fsys, err := keyvalue.NewFS(st)
+		must(err)
+		for _, op := range setup {
+			_ = ops.ApplyFS(fsys, op)
+		}
+		st.FailAt = st.Calls() + 1
+		st.FailLen = 1 << 30
+		return &subject{fs: fsys, parts: nil, readOnly: true, close: func() {}, storeCalls: st.Calls}
 	case "sublenient":
 		// Sub over a minimal, lenient root FS (only Open, and it cleans whatever it is given): the view's own
 		// ValidPath gate is the only thing that keeps "../x" inside the view.
@@ -236,9 +252,16 @@ func check(c Case) (string, string) {
 		_, err := hackpadfs.Stat(s.fs, name[:i])
 		prefixExisted = err == nil
 	}
+	callsBefore := 0
+	if s.storeCalls != nil {
+		callsBefore = s.storeCalls()
+	}
 	res := ops.ApplyFS(s.fs, c.Probe)
 	if res.Hung || res.Panic != "" {
 		return base + ":crash", fmt.Sprintf("%v: %v", c.Probe, res)
+	}
+	if !valid && s.storeCalls != nil && s.storeCalls() != callsBefore {
+		return base + ":store-reached:" + defectClass(name), fmt.Sprintf("%v: the invalid name %q reached the store (%d store calls) before being refused (%v)", c.Probe, name, s.storeCalls()-callsBefore, res.Err)
 	}
 	if !valid {
 		cls := defectClass(name)
@@ -526,6 +549,7 @@ func TestSubMountPt(t *testing.T)  { run(t, "submountpt") }
 func TestCache(t *testing.T)       { run(t, "cache") }
 func TestTar(t *testing.T)         { run(t, "tar") }
 func TestTarBroken(t *testing.T)   { run(t, "tarbroken") }
+func TestKVOffline(t *testing.T)   { run(t, "kvoffline") }
 func TestTarCanceled(t *testing.T) { run(t, "tarcanceled") }
 func TestOSFS(t *testing.T)        { run(t, "osfs") }
 func TestSubLenient(t *testing.T)  { run(t, "sublenient") }
